@@ -67,6 +67,8 @@ def exception_factories():
         lambda: J.AppError((404, "not found", {"detail": [1]})),
         lambda: J.TransportError("http://upstream/rpc", 503, "busy", {}),
         lambda: X.Fault(7, "xml fault"),
+        lambda: AttributeError("no such thing"),
+        lambda: TypeError("unsupported operand type(s) for +: 'int' and 'str'"),
     ]
 
 
@@ -81,7 +83,7 @@ class RawValue(object):
 class Registry(object):
     """Recording callables registered on the dispatcher under test"""
 
-    NAMES = ["echo", "boom", "two", "kw", "none", "a.b", "é", "nonjson", "zero", "badkeys"]
+    NAMES = ["echo", "boom", "two", "kw", "none", "a.b", "é", "nonjson", "zero", "badkeys", "ident", "ident"]
 
     def __init__(self, jsonclass=True, exc_factory=None):
         self.log = []
@@ -122,6 +124,11 @@ class Registry(object):
             reg.log.append(("nonjson", list(a), {}))
             return Unconvertible() if reg.jsonclass else set([1, 2])
 
+        def ident(x=None):
+            # the argument verbatim: results shaped like anything a request may carry
+            reg.log.append(("ident", [x], {}))
+            return x
+
         def badkeys(*a):
             # passes the class translator (keys are not converted), fails in the JSON encoder
             reg.log.append(("badkeys", list(a), {}))
@@ -129,7 +136,7 @@ class Registry(object):
 
         self.funcs = {"echo": echo, "boom": boom, "two": two, "kw": kw,
                       "none": none, "a.b": echo, "é": none,
-                      "nonjson": nonjson, "zero": zero, "badkeys": badkeys}
+                      "nonjson": nonjson, "zero": zero, "badkeys": badkeys, "ident": ident}
 
     # -- custom dispatch function (also used as instance._dispatch)
     def custom_dispatch(self, method, params):
@@ -173,6 +180,16 @@ class Registry(object):
 
             dispatcher.register_instance(Inst())
             return None
+        if mode == "instance-flex":
+            # an instance whose dispatcher takes more than it is given
+            reg = self
+
+            class FlexInst(object):
+                def _dispatch(self, method, params=None, config=None, *rest, **options):
+                    return reg.custom_dispatch(method, params)
+
+            dispatcher.register_instance(FlexInst())
+            return None
         raise ValueError(mode)
 
     # -- pure model of the outcome of calling `method` with `params`
@@ -181,11 +198,11 @@ class Registry(object):
         -> (kind, payload, expected_log_entries)
         kind in result / error; payload = value or (code, [substrings])
         """
-        if mode in ("custom", "instance"):
+        if mode in ("custom", "instance", "instance-flex"):
             logged = [("dispatch", method, params)]
             if method == "boom":
                 exc = self.exc_factory()
-                return "error", (-32603, [type(exc).__name__, str(exc)]), logged
+                return "error", (-32603, [type(exc).__name__, str(exc)], isinstance(exc, TypeError)), logged
             if method == "nonjson" and self.jsonclass:
                 return "error", (-32603, []), logged
             if method == "badkeys":
@@ -217,7 +234,7 @@ class Registry(object):
             return "result", {"args": args, "kwargs": kwargs}, [("echo", args, kwargs)]
         if name == "boom":
             exc = self.exc_factory()
-            return "error", (-32603, [type(exc).__name__, str(exc)]), [("boom", args, kwargs)]
+            return "error", (-32603, [type(exc).__name__, str(exc)], isinstance(exc, TypeError)), [("boom", args, kwargs)]
         if name == "two":
             bound.apply_defaults()
             a, b = bound.arguments["a"], bound.arguments["b"]
@@ -227,6 +244,10 @@ class Registry(object):
             a = bound.arguments["a"]
             k = dict(bound.arguments.get("k", {}))
             return "result", [a, k], [("kw", [a], k)]
+        if name == "ident":
+            bound.apply_defaults()
+            x = bound.arguments["x"]
+            return "result", x, [("ident", [x], {})]
         if name == "none":
             return "result", None, [("none", [], {})]
         if name == "zero":
@@ -323,7 +344,7 @@ def model_entry(obj, server_version, registry, mode, exp):
         exp.kinds.append("call:ok")
     else:
         exp.responses.append({"id": rid, "kind": "error", "code": payload[0],
-                              "contains": payload[1], "form": form})
+                              "contains": payload[1], "form": form, "typeerror": len(payload) > 2 and payload[2]})
         exp.kinds.append("call:%d" % payload[0])
 
 
@@ -501,6 +522,10 @@ def compare(out, exp):
                 if code not in exp.top_codes:
                     bad("C05/code", "code %s, expected one of %s" % (code, sorted(exp.top_codes)), g)
             elif code != w["code"]:
+                if w.get("typeerror") and code == -32602:
+                    # the open finding of section 5: the server cannot tell a TypeError of the body from an argument mismatch
+                    bad("C05/typeerror-raised-in-body", "a TypeError raised inside the method body is answered -32602 instead of -32603", g)
+                    continue
                 bad("C05/code:%s->%s" % (w["code"], code), "response %d has code %s, expected %s" % (i, code, w["code"]), g)
             for s in w.get("contains") or []:
                 if s not in g["error"]["message"]:
